@@ -230,7 +230,8 @@ def run():
             keylog.extend(keylog_reader.get_keys_from_string(buf.decode('ascii')))  # adds secrets from decryption secret block to keylog
             continue
 
-        packet = Packet(buf, ts)
+        # dpkt yields Decimal timestamps for pcap files with nanosecond resolution
+        packet = Packet(buf, float(ts))
 
         if packet.tcp_packet:
             if len(packet.tls_data) == 0:
